@@ -93,6 +93,42 @@ theorem roundtrip_fields (a : Attrs) (h : a.WF) (bs : Bytes) (hp : pack a = .ok 
   rw [this]
   simp [Rd.remainder]
 
+/-- what `_pack` actually transmits of an arbitrary object: a lone uid (or gid, atime, mtime) without its
+partner cannot be expressed on the wire and is left out -/
+def normalize (a : Attrs) : Attrs :=
+  { a with uid := if a.uid.isSome && a.gid.isSome then a.uid else none,
+           gid := if a.uid.isSome && a.gid.isSome then a.gid else none,
+           atime := if a.atime.isSome && a.mtime.isSome then a.atime else none,
+           mtime := if a.atime.isSome && a.mtime.isSome then a.mtime else none }
+
+/-- **Half-present pairs.** `_pack` writes the same flags word for `a` and `normalize a`; on objects whose pairs are
+complete `normalize` is the identity (so `roundtrip` loses nothing there). -/
+theorem flags_normalize (a : Attrs) : packFlags (normalize a) = packFlags a := by
+  unfold packFlags normalize
+  cases a.uid <;> cases a.gid <;> cases a.atime <;> cases a.mtime <;> simp
+
+/-- … and the bytes are the same too: the harmless half of a pair is simply not transmitted -/
+theorem pack_normalize (a : Attrs) : pack (normalize a) = pack a := by
+  obtain ⟨_, f2, _, f4, _, _, _⟩ := flags_exact a
+  unfold pack
+  rw [flags_normalize]
+  simp only [whenFlag, f2, f4]
+  cases hu : a.uid <;> cases hg : a.gid <;> cases ha : a.atime <;> cases ht : a.mtime <;>
+    simp [normalize, hu, hg, ha, ht]
+
+theorem normalize_of_pairs (a : Attrs) (h1 : a.uid.isSome = a.gid.isSome) (h2 : a.atime.isSome = a.mtime.isSome) :
+    normalize a = a := by
+  cases a with
+  | mk size uid gid mode atime mtime ext =>
+    simp only at h1 h2
+    cases uid <;> cases gid <;> cases atime <;> cases mtime <;> simp_all [normalize]
+
+/-- **Decoded objects are well-formed and re-encode to the same bytes**: whatever `_pack` accepted, decoding its
+output and packing again yields the identical byte string (`_pack ∘ _unpack ∘ _pack = _pack`). -/
+theorem repack (a : Attrs) (h : a.WF) (bs : Bytes) (hp : pack a = .ok bs) :
+    pack (unpack { content := bs, pos := 0 }).2.1 = .ok bs := by
+  rw [(roundtrip_fields a h bs hp).1, hp]
+
 /-! ## non-vacuity -/
 
 def sample : Attrs :=
